@@ -33,7 +33,10 @@ CONSTANTS MinN, MaxN,      \* number of declarations
           AllowPtr,        \* pointer members of structures are enumerated
           AllowConstPtr,   \* |:&b| in initialisers is enumerated
           AllPerms,        \* every permutation (TRUE) or only 1..n (FALSE)
-          Stepwise         \* one TLC state per found_container_1 call (TRUE) or the whole run in one step
+          Stepwise,        \* one TLC state per found_container_1 call (TRUE) or the whole run in one step
+          ChainMode        \* TRUE: the graphs are the chain 1 -> 2 -> ... -> n plus at most one more reference
+                           \* (dependency chains longer than the exhaustive bound, diamonds, one back edge), in a
+                           \* sample of n file orders
 
 VARIABLES n, kind, val, ptr, pairs, cur, perm, phase, sched, k, alg
 
@@ -44,14 +47,35 @@ vars == <<n, kind, val, ptr, pairs, cur, perm, phase, sched, k, alg>>
 \*   PENNE_FIXED_E416        E416 only if a constant is part of the cycle (not merely contained)
 \*   PENNE_FIXED_SIZEOF_PTR  |:&S| in an initialiser registers no containment
 \*   PENNE_FIXED_PTR_UNFOUNDED  cyclical structures are poisoned in the typer before anything is typed
+\*   PENNE_FIXED_SIZEOF_PTR_ARRAY  |:&[2]S| in an initialiser registers no containment either (any pointee)
 EnvIs(name) == name \in DOMAIN IOEnv /\ IOEnv[name] = "1"
 FixedE416 == EnvIs("PENNE_FIXED_E416")
 FixedSizeofPtr == EnvIs("PENNE_FIXED_SIZEOF_PTR")
 FixedPtrUnfounded == EnvIs("PENNE_FIXED_PTR_UNFOUNDED")
+FixedSizeofPtrArray == EnvIs("PENNE_FIXED_SIZEOF_PTR_ARRAY")
 
+\* kind "w" is a word (word8 .. word128): a structure whose members are integers and other WORDS only, so the
+\* only references a word makes are by-value references to words (no arrays, no pointers, no constants)
 IsC(kd, a) == kd[a] = "c"
-IsS(kd, a) == kd[a] = "s"
-IsContainer(kd, a) == kd[a] \in {"c", "s"}
+IsS(kd, a) == kd[a] \in {"s", "w"}
+IsW(kd, a) == kd[a] = "w"
+IsContainer(kd, a) == kd[a] \in {"c", "s", "w"}
+
+\* HOW a reference is written is a dimension of Gen and no part of R (a function of the pair, so that it costs no
+\* states).  By value, flavour 0 / 1 / 2:
+\*    c -> c   `C<b>`          `|:[C<b>]u8|`      `(C<b> * 1)`
+\*    c -> s   `|:S<b>|`       `|:[2]S<b>|`       `|:[2][2]S<b>|`
+\*    s -> c   `[C<b>]i32`     `[2][C<b>]i32`     `[C<b>][2]u8`
+\*    s -> s   `S<b>`          `[2]S<b>`          `[1][2]S<b>`           (w -> w: always `W<b>`)
+\* by pointer:
+\*    s -> s   `&S<b>`         `[2]&S<b>`         `&&S<b>`              (s -> c: always `&[C<b>]i32`)
+\*    c -> s   `|:&S<b>|`      `|:[2]&S<b>|`      `|:&[2]S<b>|`
+\* Modules with a member `&[C]T` are the input class of an open finding whose cascades (E433 on later users of C) depend
+\* on how the other references are written: there everything is written in flavour 0.
+Flavour(kd, P, a, b) == IF \E p \in P : IsS(kd, p[1]) /\ IsC(kd, p[2]) THEN 0 ELSE (a + 2 * b + Len(kd)) % 3
+\* the size of a pointer to an ARRAY of structures (`|:&[2]S|`): registered as containment by trees without the fix
+\* 9da61aa (finding `constptr-array`; the shape tag is kept, A follows the tree through PENNE_FIXED_SIZEOF_PTR_ARRAY)
+ConstPtrArray(kd, P, p) == IsC(kd, p[1]) /\ Flavour(kd, P, p[1], p[2]) = 2
 
 (***************************************************************************)
 (* R -- the rule.                                                          *)
@@ -104,7 +128,9 @@ Topological(E, order) == \A e \in E : Pos(order, e[2]) < Pos(order, e[1])
 (* members in member order.  The renderer writes the references of one     *)
 (* declaration in ascending order of the referenced declaration.           *)
 (***************************************************************************)
-Refs(kd, V, P, a) == IF IsC(kd, a) THEN Succ(V, a) \cup (IF FixedSizeofPtr THEN {} ELSE Succ(P, a))   \* |:&b| registers b as well
+Refs(kd, V, P, a) == IF IsC(kd, a) THEN Succ(V, a) \cup (IF FixedSizeofPtr
+                                                          THEN { b \in Succ(P, a) : ConstPtrArray(kd, P, <<a, b>>) /\ ~FixedSizeofPtrArray }
+                                                          ELSE Succ(P, a))   \* |:&b| registers b as well
                      ELSE IF IsS(kd, a) THEN Succ(V, a)                     \* pointer members do not
                      ELSE {}
 RECURSIVE SchedFrom(_, _, _, _, _)
@@ -201,10 +227,14 @@ ATypingErrs(kd, V, P, order) == ATyping(kd, V, P, order).e433
 \* the ordered pairs of containers, in lexicographic order
 PairSeq(nn, kd) ==
     SetToSortSeq({ p \in (1..nn) \X (1..nn) : IsContainer(kd, p[1]) /\ IsContainer(kd, p[2])
+                                                /\ (IsW(kd, p[1]) => IsW(kd, p[2]))
                                                 /\ (AllowSelf \/ p[1] # p[2]) },
                  LAMBDA p, q : p[1] < q[1] \/ (p[1] = q[1] /\ p[2] < q[2]))
-Perms(nn) == IF AllPerms THEN { p \in [1..nn -> 1..nn] : \A x, y \in 1..nn : x # y => p[x] # p[y] }
+\* chain mode: the file orders x |-> (x * m) mod (n + 1), m = 1 (as written) .. n (reversed), those that are permutations
+Perms(nn) == IF ChainMode THEN { p \in { [x \in 1..nn |-> (x * m) % (nn + 1)] : m \in 1..nn } : IsPerm(p, nn) }
+             ELSE IF AllPerms THEN { p \in [1..nn -> 1..nn] : \A x, y \in 1..nn : x # y => p[x] # p[y] }
              ELSE { [x \in 1..nn |-> x] }
+ChainPairs(nn) == { <<i, i + 1>> : i \in 1..(nn - 1) }
 
 Init == /\ n = 0 /\ kind = <<>> /\ val = {} /\ ptr = {} /\ pairs = <<>> /\ cur = 0 /\ perm = <<>>
         /\ phase = "nodes" /\ sched = <<>> /\ k = 0 /\ alg = AInit(0)
@@ -213,13 +243,26 @@ AddNode == /\ phase = "nodes" /\ n < MaxN
            /\ \E kd \in Kinds : kind' = Append(kind, kd)
            /\ n' = n + 1
            /\ UNCHANGED <<val, ptr, pairs, cur, perm, phase, sched, k, alg>>
-StartEdges == /\ phase = "nodes" /\ n >= MinN
+StartEdges == /\ phase = "nodes" /\ n >= MinN /\ ~ChainMode
               /\ phase' = "edges" /\ cur' = 1 /\ pairs' = PairSeq(n, kind)
               /\ UNCHANGED <<n, kind, val, ptr, perm, sched, k, alg>>
+\* chain mode: 1 -> 2 -> ... -> n by value, then nothing more or exactly one of the remaining pairs
+StartChain == /\ phase = "nodes" /\ n >= MinN /\ ChainMode
+              /\ \A i \in 1..(n - 1) : IsContainer(kind, i) /\ IsContainer(kind, i + 1) /\ (IsW(kind, i) => IsW(kind, i + 1))
+              /\ pairs' = SelectSeq(PairSeq(n, kind), LAMBDA p : p \notin ChainPairs(n))
+              /\ \/ val' = ChainPairs(n) /\ UNCHANGED ptr
+                 \/ \E x \in 1..Len(PairSeq(n, kind)) :
+                       LET p == PairSeq(n, kind)[x]
+                       IN /\ p \notin ChainPairs(n)
+                          /\ \/ val' = ChainPairs(n) \cup {p} /\ UNCHANGED ptr
+                             \/ /\ IsS(kind, p[1]) /\ ~IsW(kind, p[1]) /\ AllowPtr
+                                /\ val' = ChainPairs(n) /\ ptr' = {p}
+              /\ phase' = "edges" /\ cur' = Len(pairs') + 1
+              /\ UNCHANGED <<n, kind, perm, sched, k, alg>>
 \* decide the pair under the cursor: nothing, by value, or by pointer
 DecideEdge == /\ phase = "edges" /\ cur <= Len(pairs)
               /\ LET p == pairs[cur]
-                     mayPtr == (IsS(kind, p[1]) /\ AllowPtr) \/ (IsC(kind, p[1]) /\ IsS(kind, p[2]) /\ AllowConstPtr)
+                     mayPtr == (IsS(kind, p[1]) /\ ~IsW(kind, p[1]) /\ AllowPtr) \/ (IsC(kind, p[1]) /\ IsS(kind, p[2]) /\ AllowConstPtr)
                  IN \/ UNCHANGED <<val, ptr>>
                     \/ val' = val \cup {p} /\ UNCHANGED ptr
                     \/ mayPtr /\ ptr' = ptr \cup {p} /\ UNCHANGED val
@@ -241,7 +284,7 @@ Finish == /\ phase = "run" /\ k > Len(sched)
           /\ phase' = "end"
           /\ UNCHANGED <<n, kind, val, ptr, pairs, cur, perm, sched, k, alg>>
 
-Next == AddNode \/ StartEdges \/ DecideEdge \/ ChoosePerm \/ Step \/ Finish
+Next == AddNode \/ StartEdges \/ StartChain \/ DecideEdge \/ ChoosePerm \/ Step \/ Finish
 Spec == Init /\ [][Next]_vars
 
 (***************************************************************************)
@@ -271,5 +314,5 @@ SoundBody(r, md, order) ==
 Sound == phase = "end" => SoundBody(Rule(n, kind, val), ModelDepths, ModelOrder)
 \* the closure is exact as long as nothing was rejected (Stepwise only)
 ClosureOK == (phase = "run" /\ alg.errs = <<>>) =>
-    \A a \in Cs : alg.ids[a] \subseteq Below(val \cup { p \in ptr : IsC(kind, p[1]) /\ ~FixedSizeofPtr }, a)
+    \A a \in Cs : alg.ids[a] \subseteq Below(val \cup { p \in ptr : IsC(kind, p[1]) /\ (~FixedSizeofPtr \/ (ConstPtrArray(kind, ptr, p) /\ ~FixedSizeofPtrArray)) }, a)
 =============================================================================
